@@ -253,7 +253,15 @@ func (tds *Conn) ReadFrom() {
 
 		// err from packet.ReadFrom
 		if errors.Is(err, io.EOF) {
-			return
+			if packet.Header.MsgType == TDS_BUF_CLOSE {
+				// The server closes the connection after the teardown.
+				return
+			}
+
+			// The connection ended together with the last bytes of
+			// the packet - the next read reports the end of the
+			// connection to the consumers.
+			continue
 		}
 	}
 }
